@@ -910,7 +910,12 @@ fn pi(v: &ReplicatedValue) -> Value {
         CrdtValue::GCounter(g) => json!({"total": g.value(), "per": RIDS.iter().map(|r| g.get_replica_count(&ReplicaId(*r))).collect::<Vec<_>>()}),
         CrdtValue::PNCounter(p) => json!({"total": p.value(), "empty": p.is_empty()}),
         CrdtValue::GSet(s) => json!(s.elements().cloned().collect::<BTreeSet<String>>()),
-        CrdtValue::ORSet(s) => json!(s.elements().map(|e| (e.clone(), s.get_tags(e).map(|t| t.iter().map(|t| (t.replica_id.0, t.sequence)).collect::<BTreeSet<_>>()))).collect::<BTreeMap<_, _>>()),
+        CrdtValue::ORSet(s) => json!({
+            "members": s.elements().map(|e| (e.clone(), s.get_tags(e).map(|t| t.iter().map(|t| (t.replica_id.0, t.sequence)).collect::<BTreeSet<_>>()))).collect::<BTreeMap<_, _>>(),
+            // behaviour, not representation: the tag each replica's next add would be given (a decoded set that has
+            // forgotten its per-replica counters re-issues tags that were already used and removed)
+            "next_tag": RIDS.iter().map(|r| { let mut c = s.clone(); c.add("\u{1}probe".to_string(), ReplicaId(*r)).sequence }).collect::<Vec<_>>(),
+        }),
         CrdtValue::Hash(h) => json!(h.iter().map(|(k, l)| (k.clone(), lww(l))).collect::<BTreeMap<_, _>>()),
     };
     json!({"kind": v.crdt_type(), "body": body, "tombstone": v.is_tombstone(), "expiry": v.expiry_ms, "rf": v.replication_factor,
